@@ -127,9 +127,12 @@ GotoAL(m, t) == IF t < 0 THEN Err(m, "BAD_TARGET") ELSE [m EXCEPT !.pc = t, !.re
 RelTarget(m, v) == IF IsInt(v) THEN (IF m.pc + v[1] >= 0 THEN m.pc + v[1] ELSE -1) ELSE -1
 
 \* read the chip's own memory: written cell, or initial contents (an input)
+\* initial contents range over the part {0, 1} of the case's domain (all of it if that part is empty): programs that
+\* scan their memory would otherwise multiply the state space by |Dom| per cell
+IDom(dom) == LET s == dom \cap {Z, One} IN IF s = {} THEN dom ELSE s
 MemRead(m, env, a, dom) ==
   IF a \in DOMAIN m.mem THEN {<<m.mem[a], env>>}
-  ELSE EnvRead(env, Key("imem", Q(a), Z, Z, Z, Z), dom)
+  ELSE EnvRead(env, Key("imem", Q(a), Z, Z, Z, Z), IDom(dom))
 MemWrite(m, a, v) == [m EXCEPT !.mem = (a :> v) @@ m.mem]
 
 \* ---- one step ----------------------------------------------------------------
